@@ -20,7 +20,9 @@ RULE = ("(TLE, time) pairs from the repo's test TLEs and the near-earth generato
         "and the iteration count (model vs Orbital.get_lonlatalt and geoloc.get_lonlatalt), observer position/velocity at "
         "1e-11; oracle: ranges, WGS-84 round trip 2e-6 |r| against an independent geodesy + IAU-82 GMST, observer = inverse, "
         "velocity = omega x r (scalar observers and observer arrays of dtype float64/float32/int64, 0-d, 1-d, 2-d), module = "
-        "method exactly (also for batches in which some positions are NaN), local time; distinct = (tle, time) or observer")
+        "method exactly (also for batches in which some positions are NaN), local time; explicit positions on the polar axis and "
+        "1e-12..1 km off it (both hemispheres, pole surface to GEO height) through geoloc.get_lonlatalt with the same 2e-6 round "
+        "trip; distinct = (tle, time) or observer or explicit position")
 ASSUMPTIONS = ["convergence of the latitude fixed-point iteration (contraction factor ~0.007) and the float round trip are measured",
                "the code normalises by 6378.135 km and rescales the altitude by 6378.137 km: relative mismatch 3.1e-7, inside the 2e-6 tolerance"]
 TRUSTED = ["model PV.Model.Look (wrapLon, latStep/latLoop, lonLatAlt) and PV.Model.Astro.observerPosition", "spec PV.Spec.Topo"]
@@ -152,6 +154,7 @@ def oracle(ctx):
     ctx.note("worst WGS-84 round-trip relative error = %.3g" % worst)
     _oracle_observer_arrays(ctx)
     _oracle_batches(ctx)
+    _oracle_polar(ctx)
 
 
 def _obs_array_case(kind, lons, lats, alts, tiso):
@@ -244,6 +247,48 @@ def _oracle_batches(ctx):
             _check_batch(ctx, a, b, [t.isoformat() for t in ts], nan_cols, o)
 
 
+POLAR_Z = [6356.7524, 6400.0, 7000.0, 7200.0, 26560.0, 42164.0]
+POLAR_OFF = [0.0, 1e-12, 1e-9, 1e-7, 1e-6, 1e-5, 1e-4, 1e-3, 1e-2, 1.0]
+
+
+def _check_polar_subpoint(ctx, pos, tiso):
+    """Sub-satellite point of an explicit ECI position (km) through geoloc.get_lonlatalt: ranges and the 2e-6 WGS-84 round trip."""
+    from pyorbital import geoloc
+    t = dt.datetime.fromisoformat(tiso)
+    pos = np.array(pos, dtype=np.float64)
+    with np.errstate(all="ignore"):
+        lon, lat, alt = [float(x) for x in geoloc.get_lonlatalt(pos, t)]
+    case = {"pos": [float(x) for x in pos], "utc": tiso}
+    bad = 0
+    if not (-180.0 < lon <= 180.0) or not (-90.0 <= lat <= 90.0):
+        ctx.violation("polar_range", case, [lon, lat, alt], "lon in (-180, 180], lat in [-90, 90]", site="geoloc.get_lonlatalt")
+        bad += 1
+    back = geo.geodetic_to_eci(lon, lat, alt, geo.gmst_ref(t))
+    err = float(np.linalg.norm(back - pos) / np.linalg.norm(pos))
+    if not err <= 2e-6:
+        ctx.violation("roundtrip_polar", case, {"lonlatalt": [lon, lat, alt], "rel_err": err}, "<= 2e-6 |r|", site="geoloc.get_lonlatalt")
+        bad += 1
+    return bad, err, alt
+
+
+def _oracle_polar(ctx):
+    """explicit positions exactly on the polar axis and a few mm..km off it (every listed height and offset, both poles)"""
+    r = ctx.rng
+    worst = 0.0
+    for z in POLAR_Z:
+        for off in POLAR_OFF:
+            for sgn in (1.0, -1.0):
+                az = r.uniform(0, 2 * math.pi)
+                t = dt.datetime(2000, 1, 1) + dt.timedelta(seconds=r.uniform(-20 * 365 * 86400, 40 * 365 * 86400))
+                pos = [off * math.cos(az), off * math.sin(az), sgn * z]
+                ctx.count("eval_oracle_polar")
+                ctx.distinct(("polar", z, off, sgn))
+                ctx.bump("polar_offset_km", "%g" % off)
+                _, err, _ = _check_polar_subpoint(ctx, pos, t.isoformat())
+                worst = max(worst, err)
+    ctx.note("worst round-trip relative error on/near the polar axis = %.3g" % worst)
+
+
 def match_known(entry, v):
     return False
 
@@ -259,6 +304,10 @@ def replay(ctx, case):
     if "nan_cols" in inp:
         bad = _check_batch(ctx, inp["line1"], inp["line2"], inp["utcs"], inp["nan_cols"])
         print("batch case", inp, "violations:", bad)
+        return 1 if bad else 0
+    if "pos" in inp:
+        bad, err, alt = _check_polar_subpoint(ctx, inp["pos"], inp["utc"])
+        print("explicit position", inp, "alt", alt, "round-trip rel err", err)
         return 1 if bad else 0
     if "line1" not in inp:
         from pyorbital import astronomy
